@@ -136,8 +136,9 @@ class GraphGen:
     def recording(self, subdir=None, outside=False):
         def make():
             r = self.rng
-            name = r.choice(["rec.wav", "with space.wav", "ünï_音.flac", "a.b.c.wav", "REC_001.WAV"])
-            sub = subdir if subdir is not None else r.choice(["", "site1", "site 2/night", "a/b/c/d", "ünï"])
+            name = r.choice(["rec.wav", "with space.wav", "ünï_音.flac", "a.b.c.wav", "REC_001.WAV", "trailing space.wav ", "\u3000wide.wav"])
+            sub = subdir if subdir is not None else r.choice(["", "site1", "site 2/night", "a/b/c/d", "ünï", " leading space dir", "\u3000ideographic", "dir /x"])
+            lead = "" if sub else r.choice(["", "", " "])   # a top-level file name may itself start with a blank
             out = outside or (self.p_outside > 0 and r.random() < self.p_outside)
             if out:
                 self.n_outside += 1
@@ -146,7 +147,7 @@ class GraphGen:
             outside_roots = [Path("/elsewhere/other"), Path(str(self.audio_root) + "_backup"), Path(str(self.audio_root) + "2") / "x",
                              self.audio_root.parent, self.audio_root.parent / "sibling"]
             root = r.choice(outside_roots) if out else self.audio_root
-            path = root / sub / f"{r.getrandbits(24):06x}_{name}"
+            path = root / sub / f"{lead}{r.getrandbits(24):06x}_{name}"
             te = r.choice([1.0, 1.0, 10.0, 0.5, 2.5]) if self.opt() else 1.0
             return self.data.Recording(
                 uuid=self.uid(), path=path, duration=r.choice([1.0, 10.0, 0.123, 3600.5]), channels=r.choice([1, 2, 4]),
